@@ -7,6 +7,7 @@ value of every known object as read back through the library's own accessors by 
 The harness keeps a `shadow` (value skeleton + current reference bindings) ONLY to generate well-formed next
 operations; verdicts are TLC's, computed from the logged arguments and the bytes.
 """
+import os
 import copy, random
 import numpy as np
 from . import common as C
@@ -957,6 +958,26 @@ class World:
         for e in self.steps:
             e["cap"] = e["cap"] + [0] * (n - len(e["cap"]))
         return dict(nbuf=n, steps=self.steps)
+
+    def compile_kernel(self, ci):
+        """compile and call a tiny kernel in context ci (both when ci is None); built in a scratch directory"""
+        import tempfile, shutil
+        xo = self.xo
+        src = "/*gpukern*/ void vk_add(const int n, /*gpuglmem*/ double* x){ for (int ii = 0; ii < n; ii++) { x[ii] += 1; } }"
+        cwd = os.getcwd()
+        tmp = tempfile.mkdtemp(prefix="vk_")
+        try:
+            os.chdir(tmp)
+            ctx = self.ctxs[ci]
+            ctx.add_kernels(sources=[src], kernels={"vk_add": xo.Kernel(args=[xo.Arg(xo.Int32, name="n"), xo.Arg(xo.Float64, pointer=True, name="x")])})
+            a = np.zeros(3)
+            ctx.kernels.vk_add(n=3, x=a)
+            if list(a) != [1.0, 1.0, 1.0]:
+                raise C.MachineryError("the probe kernel did not run")
+        finally:
+            os.chdir(cwd)
+            shutil.rmtree(tmp, ignore_errors=True)
+        self.prog.append(f"kernel compiled and called in context {ci}")
 
     # ------------------------------------------------------------------ hybrid classes and pickling (C20)
     def new_hybrid(self, tx, b):
